@@ -14,7 +14,7 @@ import itertools
 from typing import Any, Dict, List, Optional, Tuple
 
 from mtsa.absint import K, R, S, U, V
-from mtsa.index import Repo, calls_in, dotted, norm, walk_no_nested
+from mtsa.index import FunctionInfo, Repo, calls_in, dotted, norm, walk_no_nested
 from mtsa.report import AnalysisError, Ctx
 
 from . import anno_model as AM
@@ -307,12 +307,61 @@ def rule_pipeline(ctx: Ctx, repo: Repo) -> None:
     ctx.count("replace sites exercised", len(sites_seen))
 
 
+def produced_kinds(repo: Repo) -> Dict[str, str]:
+    """typing aliases that the inference functions (get_type / get_dict_type / shrink_types and what they call in
+    typing.py) and the return-annotation builders subscript with computed arguments: kind -> function"""
+    tym = repo.module(TY)
+    todo = [repo.fn(TY, n) for n in ("get_type", "get_dict_type", "shrink_types")]
+    for n in ("make_iterator", "make_generator"):
+        f = tym.functions.get(n)
+        if f is not None:
+            todo.append(f)
+    seen: Dict[str, FunctionInfo] = {}
+    while todo:
+        fi = todo.pop()
+        if fi.fq in seen or fi.cls is not None:
+            continue
+        seen[fi.fq] = fi
+        for c in calls_in(fi.node):
+            callee = repo.resolve_callee(fi, c)
+            if callee is not None and callee.module is tym and callee.cls is None:
+                todo.append(callee)
+    out: Dict[str, str] = {}
+    for fi in seen.values():
+        skip: set = set()  # annotations are not values that get built
+        for x in ast.walk(fi.node):
+            anns = []
+            if isinstance(x, (ast.FunctionDef, ast.AsyncFunctionDef)):
+                anns = [a.annotation for a in x.args.posonlyargs + x.args.args + x.args.kwonlyargs if a.annotation is not None] + ([x.returns] if x.returns is not None else [])
+                anns += [a.annotation for a in (x.args.vararg, x.args.kwarg) if a is not None and a.annotation is not None]
+            elif isinstance(x, ast.AnnAssign):
+                anns = [x.annotation]
+            for a in anns:
+                skip.update(id(y) for y in ast.walk(a))
+        for x in ast.walk(fi.node):
+            if id(x) in skip:
+                continue
+            if isinstance(x, ast.Subscript) and isinstance(x.value, (ast.Name, ast.Attribute)):
+                d = dotted(x.value) or ""
+                target = tym.imports.get(d.split(".")[0], "")
+                full = target + d[len(d.split(".")[0]):] if target else ""
+                if full.startswith("typing.") and full.count(".") == 1:
+                    kind = full.split(".")[1]
+                    consts = all(isinstance(y, (ast.Constant,)) or (isinstance(y, ast.Name) and y.id in ("Any",)) for y in (x.slice.elts if isinstance(x.slice, ast.Tuple) else [x.slice]))
+                    if not consts and kind not in ("Optional", "Type", "Callable"):
+                        out.setdefault(kind, fi.qualname)
+    return out
+
+
 def rule_handlers(ctx: Ctx, repo: Repo) -> None:
     """R-C11.1 (table form): every generic kind whose arguments are computed has a rewrite_<Kind> handler."""
     ci = repo.cls(TY, "GenericTypeRewriter")
     handlers = {m[len("rewrite_"):] for c in [ci] for m in c.methods if m.startswith("rewrite_")}
-    produced = {"List": "get_type", "Set": "get_type", "Dict": "get_dict_type", "DefaultDict": "get_type", "Tuple": "get_type", "Union": "shrink_types",
-                "Iterator": "update_signature_return", "Generator": "update_signature_return"}
+    produced = produced_kinds(repo)
+    for need, by in (("List", "get_type"), ("Set", "get_type"), ("Dict", "get_dict_type"), ("DefaultDict", "get_type"), ("Tuple", "get_type")):
+        if need not in produced:
+            raise AnalysisError(f"R-C11.1: the enumeration of generic kinds built by inference no longer finds {need}[...] in {by}")
+    produced.setdefault("Union", "shrink_types")
     for kind, by in produced.items():
         ctx.check(kind in handlers, "R-C11.1", ci.fq, f"the generic rewriter descends into {kind}[...] (produced by {by} with computed arguments)",
                   construct=f"no rewrite_{kind} on GenericTypeRewriter; handlers: {sorted(handlers)}")
